@@ -1,5 +1,6 @@
 import Dbus.Proofs.Bus.Services
 import Dbus.Proofs.Bus.GenericA
+import Dbus.Proofs.Bus.MonInv
 /-
   C04 — name ownership follows the specification's state machine.
 
@@ -157,5 +158,52 @@ example : QInv [(⟨1, true, false⟩ : Owner), ⟨2, false, false⟩] ∧ ¬ Qu
   simp only [List.cons.injEq] at h
   rw [← h.1] at ha
   cases ha
+
+/-! ### who stands in a queue, in every reachable state -/
+
+/-- **Only connected clients own or wait for names**: whoever stands in any queue of any reachable state is a connected
+    connection (and no monitor) - a disconnect, and BecomeMonitor, really take the connection out of every queue. -/
+theorem queue_members_are_connected (tbl : List IfaceRow) (l : Limits) (p : Policy) (evs : List Ev) :
+    ∀ s ∈ (run tbl { limits := l, policy := p } evs).1.services, ∀ d, inQueue s.owners d = true →
+      ∃ x ∈ (run tbl { limits := l, policy := p } evs).1.conns, x.id = d ∧ x.monitor = false :=
+  (good_run tbl (good_init l p) evs).reg.live
+
+/-- the connection's own list of names (`services_owned`, which the disconnect path walks) covers every queue it stands in -/
+theorem owned_names_cover_queues (tbl : List IfaceRow) (l : Limits) (p : Policy) (evs : List Ev) :
+    ∀ x ∈ (run tbl { limits := l, policy := p } evs).1.conns, ∀ s ∈ (run tbl { limits := l, policy := p } evs).1.services,
+      inQueue s.owners x.id = true → s.name ∈ x.owned :=
+  (good_run tbl (good_init l p) evs).reg.sync
+
+/-- so that when a connection goes (close, invalid bytes, a monitor that speaks) it stands in no queue afterwards -/
+theorem gone_connection_in_no_queue (tbl : List IfaceRow) (l : Limits) (p : Policy) (evs : List Ev) (c : ConnId) :
+    ∀ s ∈ (run tbl { limits := l, policy := p } (evs ++ [.close c])).1.services, inQueue s.owners c = false := by
+  intro s hs
+  rw [Bool.eq_false_iff]
+  intro hq
+  have hg := good_run tbl (good_init l p) (evs ++ [.close c])
+  obtain ⟨x, hx, hxid, _⟩ := hg.reg.live s hs c hq
+  -- the closed connection is not among the connections any more
+  have hrun : (run tbl { limits := l, policy := p } (evs ++ [.close c])).1 =
+      (step tbl (run tbl { limits := l, policy := p } evs).1 (.close c)).bus := by
+    unfold run; rw [List.foldl_append]; rfl
+  rw [hrun] at hx
+  have hgone : ∀ y ∈ (disconnect (run tbl { limits := l, policy := p } evs).1 c).bus.conns, y.id ≠ c := by
+    intro y hy
+    unfold disconnect at hy
+    cases hc : (run tbl { limits := l, policy := p } evs).1.conn? c with
+    | none =>
+      rw [hc] at hy
+      intro he
+      have := List.find?_eq_none.mp hc y hy
+      simp [he] at this
+    | some x0 =>
+      rw [hc] at hy
+      have hy' : y ∈ (disconnectTx (run tbl { limits := l, policy := p } evs).1 c x0).bus.conns := hy
+      unfold disconnectTx at hy'
+      rw [dropPending_bus] at hy'
+      have : y ∈ (removeConn c _).conns := hy'
+      unfold removeConn at this
+      simpa using (List.mem_filter.mp this).2
+  exact hgone x hx hxid
 
 end Dbus.Props.C04
